@@ -1,12 +1,282 @@
 (* C03 - access control: nothing happens to an object without a policy grant.
-   Property theorems only; proofs live in PK.Policy.*Proofs. *)
+   Property theorems only; proofs live in PK.Policy.{PolicyProofs,AccessProofs,HandlerSpecProofs}.
+
+   Policy.v        transcription of is_allowed / get_relevant_policy_section / _is_allowed_by_operation_policy
+                   and [granted_spec], the grant relation written from the property text
+   Access.v        the choke points of the handlers, driven by the generated table PKGen.HandlerAccessOps
+   HandlerSpec.v   what the property demands of each handler (hand-written) *)
 From Coq Require Import ZArith List Bool String.
-From PK Require Import Policy.Policy Policy.PolicyProofs.
+From PK Require Import Policy.Policy Policy.PolicyProofs Policy.AccessTypes Policy.Access Policy.AccessProofs
+                       Policy.HandlerSpec Policy.HandlerSpecProofs.
+From PKGen Require Import HandlerAccessOps DefaultPolicies.
 Import ListNotations.
 Open Scope Z_scope.
 Open Scope string_scope.
 
+(* =========================================================================== the decision *)
+
+(* Full statement: whatever the engine allows is granted by the policy in the sense of the property text. *)
+Definition decision_sound_statement : Prop := forall P pn id owner ot op,
+  allowed_by_policy P pn id owner ot op = true -> granted_spec P pn id owner ot op.
+
+(* It holds for every identity none of whose groups is named "" ... *)
+Theorem decision_sound_partial : forall P pn id owner ot op,
+  wf_identity id ->
+  allowed_by_policy P pn id owner ot op = true -> granted_spec P pn id owner ot op.
+Proof. exact decision_sound_partial_l. Qed.
+Print Assumptions decision_sound_partial.
+
+(* ... and fails for the group "" (known finding C03-empty-group-name): the engine treats it as
+   "no group information" and consults the preset section although the policy defines groups. *)
+Theorem decision_sound_refuted : exists P pn id owner ot op,
+  allowed_by_policy P pn id owner ot op = true /\ ~ granted_spec P pn id owner ot op.
+Proof. exact decision_sound_refuted_l. Qed.
+Print Assumptions decision_sound_refuted.
+
+Example decision_sound_nonvacuous :
+  wf_identity {| id_user := Some "bob"; id_groups := Some ["A"; "B"] |} /\
+  allowed_by_policy [("p", {| preset := None; groups := Some [("B", [(2, [(10, AllowAll)])])] |})] "p"
+                    {| id_user := Some "bob"; id_groups := Some ["A"; "B"] |} (Some "alice") 2 10 = true.
+Proof. split; [simpl; intros [H|[H|[]]]; discriminate|vm_compute; reflexivity]. Qed.
+
+(* exact characterisation: allowed iff the policy exists and a section the engine consults for the
+   requester (the preset without group information; for each group its group section, the preset
+   for the group "") has an entry for the object type and the operation that is AllowAll, or
+   AllowOwner with requester = owner *)
 Theorem decision_table : forall P pn id owner ot op,
   allowed_by_policy P pn id owner ot op = true <-> table_spec P pn id owner ot op.
 Proof. exact decision_table_l. Qed.
 Print Assumptions decision_table.
+
+(* without group information the decision is exactly the specification (both directions) *)
+Theorem no_groups_exact : forall P pn u owner ot op,
+  allowed_by_policy P pn {| id_user := u; id_groups := None |} owner ot op = true
+  <-> granted_spec P pn {| id_user := u; id_groups := None |} owner ot op.
+Proof. exact no_groups_exact_l. Qed.
+Print Assumptions no_groups_exact.
+
+(* default deny, for every kind of missing entry *)
+Theorem default_deny :
+  (* missing policy *)
+  (forall P pn id owner ot op, slookup pn P = None -> allowed_by_policy P pn id owner ot op = false) /\
+  (* no group information and no preset section *)
+  (forall P pn b u owner ot op, slookup pn P = Some b -> preset b = None ->
+     allowed_by_policy P pn {| id_user := u; id_groups := None |} owner ot op = false) /\
+  (* group information and no groups section (this is also the restrictive quirk F10) *)
+  (forall P pn b id gs owner ot op, slookup pn P = Some b -> id_groups id = Some gs -> ~ In "" gs ->
+     (groups b = None \/ groups b = Some []) -> allowed_by_policy P pn id owner ot op = false) /\
+  (* no entry for any of the requester's groups *)
+  (forall P pn b id gs gm owner ot op, slookup pn P = Some b -> id_groups id = Some gs -> ~ In "" gs ->
+     groups b = Some gm -> (forall g, In g gs -> slookup g gm = None) ->
+     allowed_by_policy P pn id owner ot op = false) /\
+  (* empty group list *)
+  (forall P pn u owner ot op,
+     allowed_by_policy P pn {| id_user := u; id_groups := Some [] |} owner ot op = false) /\
+  (* every section lacks the object type, or the operation, or holds DisallowAll / an unknown value /
+     AllowOwner for somebody else *)
+  (forall P pn b id owner ot op, slookup pn P = Some b ->
+     (forall s, preset b = Some s -> section_silent s (id_user id) owner ot op) ->
+     (forall gm g s, groups b = Some gm -> slookup g gm = Some s -> section_silent s (id_user id) owner ot op) ->
+     allowed_by_policy P pn id owner ot op = false).
+Proof.
+  exact (conj deny_policy_missing (conj deny_preset_missing (conj deny_groups_missing
+        (conj deny_group_entry_missing (conj deny_empty_group_list deny_all_sections_silent))))).
+Qed.
+Print Assumptions default_deny.
+
+(* with group information the most permissive applicable group section decides:
+   allowed iff the section of at least ONE of the requester's groups grants *)
+Theorem most_permissive_group : forall P pn u gs owner ot op,
+  ~ In "" gs ->
+  (allowed_by_policy P pn {| id_user := u; id_groups := Some gs |} owner ot op = true
+   <-> exists g, In g gs /\ group_section_grants P pn g u owner ot op).
+Proof. exact most_permissive_group_l. Qed.
+Print Assumptions most_permissive_group.
+
+Theorem more_groups_never_less : forall P pn u gs gs' owner ot op,
+  incl gs gs' ->
+  allowed_by_policy P pn {| id_user := u; id_groups := Some gs |} owner ot op = true ->
+  allowed_by_policy P pn {| id_user := u; id_groups := Some gs' |} owner ot op = true.
+Proof. exact more_groups_never_less_l. Qed.
+Print Assumptions more_groups_never_less.
+
+(* 'allow owner' reaches only the owner *)
+Theorem allowed_implies_all_or_owner : forall P pn id owner ot op,
+  allowed_by_policy P pn id owner ot op = true ->
+  id_user id = owner \/
+  exists b s om, slookup pn P = Some b /\ zlookup ot s = Some om /\ zlookup op om = Some AllowAll /\
+                 (preset b = Some s \/ exists gm g, groups b = Some gm /\ slookup g gm = Some s).
+Proof. exact allowed_implies_all_or_owner_l. Qed.
+Print Assumptions allowed_implies_all_or_owner.
+
+(* Recorded, not a finding (DESIGN F10): the converse of soundness fails in the RESTRICTIVE direction -
+   group information + a policy with only a preset section is denied although the property text (and
+   docs/source/server.rst) let the preset decide.  The property is an "only if"; nothing ungranted happens. *)
+Theorem converse_counterexample : exists P pn id owner ot op,
+  wf_identity id /\ granted_spec P pn id owner ot op /\ allowed_by_policy P pn id owner ot op = false.
+Proof. exact converse_counterexample_l. Qed.
+Print Assumptions converse_counterexample.
+
+(* the built-in 'default' policy (generated from kmip/core/policy.py): symmetric keys, private keys,
+   split keys and secret data are for their owner only, whatever the operation *)
+Theorem builtin_default_owner_only : forall id owner ot op,
+  In ot owner_only_types ->
+  allowed_by_policy default_policies "default" id owner ot op = true -> id_user id = owner.
+Proof. exact HandlerSpecProofs.builtin_default_owner_only. Qed.
+Print Assumptions builtin_default_owner_only.
+
+(* =========================================================================== the choke points *)
+
+(* every handler reaches stored objects only through the choke points, with the Operation constant
+   and the identifier the property demands (generated table = hand-written specification) *)
+Theorem every_access_is_checked :
+  handler_access_ops = spec_handlers /\
+  dispatch = map (fun p => (op_named (fst p), snd p)) spec_dispatch /\
+  (forall op g, In (op, g) governing_table ->
+     exists h rest, handler_of op = Some h /\ h_sites h = SLoad UPrimary GNone g :: rest).
+Proof. exact (conj handler_table_as_specified (conj dispatch_as_specified governed_primary)). Qed.
+Print Assumptions every_access_is_checked.
+
+(* A request that addresses (as primary object, wrapping key, derivation base or through the ID
+   placeholder) an object for which the policy does not allow the operation the handler checks
+   fails, changes neither the store nor the ID placeholder, and is not answered as "passed". *)
+Theorem no_effect_without_grant : forall P id s ph r out st',
+  step_item P id (s, ph) r = (out, st') ->
+  forall o op, addressed r ph s o op -> allowed_obj P id op o = false ->
+  st' = (s, ph) /\ passed out = false /\ is_failure out = true.
+Proof. exact no_effect_without_grant_l. Qed.
+Print Assumptions no_effect_without_grant.
+
+Definition ex_store : store :=
+  {| objs := [ {| o_uid := "1"; o_type := 2; o_owner := Some "alice"; o_pol := "default" |};
+               {| o_uid := "2"; o_type := 1; o_owner := Some "alice"; o_pol := "default" |} ];
+     dead := [] |}.
+Definition ex_bob : identity := {| id_user := Some "bob"; id_groups := None |}.
+Definition ex_req (op : Z) (u : option string) : request :=
+  {| r_op := op; r_uid := u; r_uids := []; r_wrap := None; r_pre_ok := true; r_post_ok := true;
+     r_match := None; r_new := [] |}.
+
+(* bob asks for alice's symmetric key under the built-in default policy: refused with the not-found text *)
+Example no_effect_without_grant_nonvacuous :
+  step_item default_policies ex_bob (ex_store, None) (ex_req 10 (Some "1"))
+  = (ODenied "Could not locate object: 1", (ex_store, None)) /\
+  step_item default_policies ex_bob (ex_store, None) (ex_req 10 (Some "7"))
+  = (ONotFound "Could not locate object: 7", (ex_store, None)) /\
+  fst (step_item default_policies ex_bob (ex_store, None) (ex_req 10 (Some "2"))) = OSuccess [].
+Proof. repeat split; vm_compute; reflexivity. Qed.
+
+(* the exact answer for the operations that address a primary object *)
+Theorem governed_denial : forall P id s ph r g u o,
+  In (r_op r, g) governing_table -> r_pre_ok r = true ->
+  resolve_primary r ph = Some u -> find_obj u (objs s) = Some o ->
+  allowed_obj P id g o = false ->
+  step_item P id (s, ph) r = (ODenied (render1 notfound_format u), (s, ph)).
+Proof. exact HandlerSpecProofs.governed_denial. Qed.
+Print Assumptions governed_denial.
+
+(* the text of the permission error is the text for an identifier that does not exist
+   (both formats are extracted from engine.py on every run) *)
+Theorem denial_text_eq_notfound : forall u, render1 denied_format u = render1 notfound_format u.
+Proof. exact denial_text_eq_notfound_l. Qed.
+Print Assumptions denial_text_eq_notfound.
+
+(* a denied primary object is answered like a missing one: same text, state unchanged in both runs *)
+Theorem denied_like_missing_primary : forall P id s s0 ph r h op rest u o,
+  handler_of (r_op r) = Some h -> h_sites h = SLoad UPrimary GNone op :: rest -> r_pre_ok r = true ->
+  resolve_primary r ph = Some u ->
+  find_obj u (objs s) = Some o -> allowed_obj P id op o = false ->
+  find_obj u (objs s0) = None ->
+  out_text (fst (step_item P id (s, ph) r)) = out_text (fst (step_item P id (s0, ph) r)) /\
+  snd (step_item P id (s, ph) r) = (s, ph) /\ snd (step_item P id (s0, ph) r) = (s0, ph).
+Proof. exact denied_like_missing_primary_l. Qed.
+Print Assumptions denied_like_missing_primary.
+
+(* NOT PROVED (kept visible): the same for every load site at once - the whole answer equals the
+   answer of the store without the ungranted object, up to PermissionDenied/ItemNotFound.  Covered for
+   the primary site above, for all sites by no_effect_without_grant (failure, nothing changes) and
+   on the implementation by the direct oracle of harness/c03.py. *)
+Definition denied_like_missing_statement : Prop := forall P id s ph r o,
+  In o (objs s) -> (forall op, addressed r ph s o op -> allowed_obj P id op o = false) ->
+  out_text (fst (step_item P id (s, ph) r))
+  = out_text (fst (step_item P id ({| objs := remove_uid (o_uid o) (objs s); dead := dead s |}, ph) r)).
+
+(* Full statement of the headline: an operation takes effect on, or is answered as passed for, an
+   object only if the object's policy grants the operation to the requester. *)
+Definition effect_only_if_granted_statement : Prop := forall P id s ph r out s' ph',
+  step_item P id (s, ph) r = (out, (s', ph')) ->
+  s' <> s \/ ph' <> ph \/ passed out = true ->
+  forall o op, addressed r ph s o op -> granted_spec P (o_pol o) id (o_owner o) (o_type o) op.
+
+Theorem effect_only_if_granted_partial : forall P id s ph r out s' ph',
+  wf_identity id ->
+  step_item P id (s, ph) r = (out, (s', ph')) ->
+  s' <> s \/ ph' <> ph \/ passed out = true ->
+  forall o op, addressed r ph s o op -> granted_spec P (o_pol o) id (o_owner o) (o_type o) op.
+Proof. exact effect_only_if_granted_l. Qed.
+Print Assumptions effect_only_if_granted_partial.
+
+(* which objects are addressed, per kind of site *)
+Theorem addressed_objects :
+  (forall r ph s g u o, In (r_op r, g) governing_table -> resolve_primary r ph = Some u ->
+     find_obj u (objs s) = Some o -> addressed r ph s o g) /\
+  (forall r ph s u o, r_op r = GET -> r_wrap r = Some u -> find_obj u (objs s) = Some o -> addressed r ph s o GET) /\
+  (forall r ph s u o, r_op r = op_named "DERIVE_KEY" -> In u (r_uids r) -> find_obj u (objs s) = Some o ->
+     addressed r ph s o GET).
+Proof. exact (conj primary_addressed (conj wrapping_key_addressed derive_base_addressed)). Qed.
+Print Assumptions addressed_objects.
+
+(* a row that is gone after a step was addressed by the request under a grant; all other rows stay *)
+Theorem only_addressed_objects_change : forall P id s ph r out s' ph',
+  wf_store s ->
+  step_item P id (s, ph) r = (out, (s', ph')) ->
+  forall o, In o (objs s) ->
+  In o (objs s') \/ exists op, addressed r ph s o op /\ allowed_obj P id op o = true.
+Proof. exact only_addressed_objects_change_l. Qed.
+Print Assumptions only_addressed_objects_change.
+
+(* Locate never lists an object the requester may not locate *)
+Theorem locate_only_permitted : forall P id s ph r ids st',
+  r_op r = op_named "LOCATE" -> step_item P id (s, ph) r = (OSuccess ids, st') ->
+  forall u, In u ids ->
+  exists o, In o (objs s) /\ o_uid o = u /\ allowed_obj P id (op_named "LOCATE") o = true.
+Proof. exact locate_only_permitted_l. Qed.
+Print Assumptions locate_only_permitted.
+
+Example locate_only_permitted_nonvacuous :
+  fst (step_item default_policies ex_bob (ex_store, None) (ex_req 8 None)) = OSuccess ["2"].
+Proof. vm_compute. reflexivity. Qed.
+
+(* =========================================================================== histories *)
+
+(* every store reachable from the empty one is well formed (identifiers unique, dead ones stay dead) *)
+Theorem reachable_wf : forall P h, wf_store (run P empty_store h).
+Proof. exact AccessProofs.reachable_wf. Qed.
+Print Assumptions reachable_wf.
+
+(* type, owner and policy name of a row never change, over all histories of requests by any clients *)
+Theorem rows_never_change : forall P h s o o',
+  wf_store s -> In o (objs s) -> In o' (objs (run P s h)) -> o_uid o' = o_uid o -> o' = o.
+Proof. exact rows_never_change_l. Qed.
+Print Assumptions rows_never_change.
+
+(* an object's owner is the identity of the request that created it, forever *)
+Theorem owner_forever : forall P s q h o,
+  wf_store s ->
+  In o (objs (snd (process_request P s q))) -> ~ In (o_uid o) (uids s) ->
+  o_owner o = id_user (q_id q) /\
+  forall o', In o' (objs (run P (snd (process_request P s q)) h)) -> o_uid o' = o_uid o -> o' = o.
+Proof. exact owner_forever_l. Qed.
+Print Assumptions owner_forever.
+
+Definition ex_create : request :=
+  {| r_op := 1; r_uid := None; r_uids := []; r_wrap := None; r_pre_ok := true; r_post_ok := true;
+     r_match := None; r_new := [("3", 2, "default")] |}.
+
+(* bob creates object 3 and destroys it through the ID placeholder in the same batch; alice's rows stay *)
+Example owner_forever_nonvacuous :
+  process_request default_policies ex_store {| q_id := ex_bob; q_cont := false; q_items := [ex_create] |}
+  = ([OSuccess ["3"]],
+     {| objs := objs ex_store ++ [{| o_uid := "3"; o_type := 2; o_owner := Some "bob"; o_pol := "default" |}]; dead := [] |}) /\
+  process_request default_policies ex_store {| q_id := ex_bob; q_cont := false; q_items := [ex_create; ex_req 20 None] |}
+  = ([OSuccess ["3"]; OSuccess []], {| objs := objs ex_store; dead := ["3"] |}).
+Proof. split; vm_compute; reflexivity. Qed.
